@@ -8,7 +8,6 @@ BUDGET = {"quick": 700, "thorough": 12000}
 def explore(res, scale=1, seed=None):
     seed = res.seed if seed is None else seed
     colfam.run_family(res, "c01", BUDGET[res.tier] * scale, seed, builds=("default", "purego"))
-    colfam.run_family(res, "c01blk", max(60, BUDGET[res.tier] * scale // 6), seed, builds=("default",))
     res.extra["rule"] = ("catalogue of real column kinds (harness/c14.go + c01.go) x row counts 0..257 (65534..65537 dictionary "
                          "boundary once per run) filled by reflection; each case: real Prepare+EncodeState+EncodeColumn into a "
                          "non-empty buffer, real decode into a fresh column with trailing bytes; model runs the same case from the "
